@@ -183,6 +183,19 @@ def R3_search_siblings(run):
         if bb["t"]["k"] == "ret":
             rets = [l for l in leaves(pv.local(0, bi, len(bb["s"]))) if l[0] == "agg" and l[2] == "Ok"]
     ok = len(rets) == 1 and strip(dict(rets[0][3])["0"])[0] == "agg" and strip(dict(rets[0][3])["0"])[2] == "None"
+    if not rets:
+        # `tick_offset(..).map(|_| None)`: the success value is whatever the closure returns - None for every offset
+        maps = []
+        for bi, bb in enumerate(z.blocks):
+            if bb["t"]["k"] == "ret":
+                maps = [strip(l) for l in leaves(pv.local(0, bi, len(bb["s"]))) if strip(l)[0] == "call" and strip(l)[1].rsplit("::", 1)[-1] == "map" and "Result" in strip(l)[1]]
+        if len(maps) == 1:
+            cl = [x for x in subterms(maps[0][2][1]) if x[0] == "closure"] if len(maps[0][2]) == 2 else []
+            cf = facts.fn(cl[0][1]) if len(cl) == 1 else None
+            if cf is not None:
+                pc = prov_of(cf)
+                cr = [strip(l) for b_, bb_ in enumerate(cf.blocks) if bb_["t"]["k"] == "ret" for l in leaves(pc.local(0, b_, len(bb_["s"])))]
+                ok = bool(cr) and all(r[0] == "agg" and r[2] == "None" for r in cr)
     run.check("R3", "zeroed-returns-none", ok, "the zeroed array reports an initialised tick", loc=z.loc(), detail="Ok(None)")
     for path in (FIXED, DYN):
         fn = facts.need_fn(path + "::get_next_init_tick_index")
@@ -293,7 +306,14 @@ def R4_sequence(run):
             if r[0] == "tuple":
                 vals.append(strip(r[1][1]))
         kinds = set()
+        # (a bound handed over as Option and unwrapped behind `if let Some(..)`: the None alternative does not reach the return)
+        flat = []
         for v in vals:
+            if v[0] == "phi":
+                flat += [strip(x) for x in v[1] if not (strip(x)[0] == "agg" and strip(x)[2] == "None")]
+            else:
+                flat.append(v)
+        for v in flat:
             if const_val(v) == (-443636 if ab else 443636):
                 kinds.add("bound")
             elif const_val(v) is not None:
